@@ -3,3 +3,4 @@ import SaphyrVerif.Model.Scalars
 import SaphyrVerif.Model.Base64
 import SaphyrVerif.Spec.Scalars
 import SaphyrVerif.Model.PathMap
+import SaphyrVerif.Model.Tls
